@@ -7,6 +7,11 @@ package main
 
 import (
 	"context"
+	"errors"
+	"fmt"
+	"io"
+	"net"
+	"os"
 	"reflect"
 	"runtime"
 	"strings"
@@ -20,6 +25,8 @@ import (
 	wnet "github.com/whatap/golib/net"
 	"github.com/whatap/golib/util/list"
 	"github.com/whatap/golib/util/queue"
+
+	"verif/vlib"
 )
 
 // handover is what the client kept of one SendFlush call.
@@ -34,6 +41,115 @@ type handover struct {
 	RecNil   bool          //   " Records was nil
 	// the scenario's context was already cancelled when the pack was handed over
 	AfterCancel bool
+	// what the client answered to this hand-over ("" = nil). The pack counts as emitted either
+	// way: it was passed to the client.
+	Err string
+}
+
+// errPlan scripts which hand-overs (0-based index over all SendFlush calls the client sees) the
+// client answers with an error. The client keeps the pack in every case (mode S: encoded at once,
+// mode R: retained) — a TCP client that reports an error may well have put the pack on the wire
+// or into its own retry buffer; the sender is told only "error".
+//
+// The client never panics in SendFlush: the sender does not recover there (sendAndClear called
+// from the idle timeout or the stop path of run, and SendDirect, have no recover around the
+// client call — a panicking client would end the process; only Append's recover, meant for the
+// encoder, would incidentally see it).
+type errPlan struct {
+	Kind  string // none | kth | every-nth | all | random | from-kth-on | first-k
+	K, N  int
+	Mask  []bool
+	Value int // index into clientErrs of the first error answered
+	Rot   int // 0: always the same value, 1: the next value each time
+}
+
+// sessionErr is an error of a type of the client's own (also a net.Error).
+type sessionErr struct{ code int }
+
+func (e *sessionErr) Error() string   { return fmt.Sprintf("session closed by peer (code %d)", e.code) }
+func (e *sessionErr) Timeout() bool   { return true }
+func (e *sessionErr) Temporary() bool { return true }
+
+var clientErrs = []error{
+	errors.New("write tcp 10.0.0.7:51234->10.0.0.1:6600: write: broken pipe"),
+	io.EOF,
+	&net.OpError{Op: "write", Net: "tcp", Err: os.ErrDeadlineExceeded},
+	io.ErrShortWrite,
+	fmt.Errorf("send failed: %w", io.ErrClosedPipe),
+	&sessionErr{code: 7},
+}
+
+func drawErrPlan(r *vlib.Rand) *errPlan {
+	p := &errPlan{Kind: "none", Value: r.Intn(len(clientErrs)), Rot: r.Intn(2)}
+	if r.Chance(2, 5) {
+		return p
+	}
+	switch r.Intn(10) {
+	case 0, 1, 2:
+		p.Kind, p.K = "kth", []int{0, 0, 1, 1, 2, 3, 5, 8}[r.Intn(8)]
+	case 3, 4:
+		p.Kind, p.N = "every-nth", r.Range(2, 4)
+		p.K = r.Intn(p.N)
+	case 5:
+		p.Kind = "all"
+	case 6, 7:
+		p.Kind = "random"
+		p.Mask = make([]bool, r.Range(3, 16))
+		for i := range p.Mask {
+			p.Mask[i] = r.Chance(1, 3)
+		}
+	case 8:
+		p.Kind, p.K = "from-kth-on", r.Range(1, 4)
+	default:
+		p.Kind, p.K = "first-k", r.Range(1, 3)
+	}
+	return p
+}
+
+func (p *errPlan) String() string {
+	switch p.Kind {
+	case "none", "all":
+		return p.Kind
+	case "every-nth":
+		return fmt.Sprintf("every-nth(n=%d,offset=%d)", p.N, p.K)
+	case "random":
+		m := ""
+		for _, b := range p.Mask {
+			if b {
+				m += "E"
+			} else {
+				m += "."
+			}
+		}
+		return "random(" + m + ")"
+	}
+	return fmt.Sprintf("%s(k=%d)", p.Kind, p.K)
+}
+
+// answer is what the client returns from its i-th hand-over (0-based).
+func (p *errPlan) answer(i int) error {
+	if p == nil {
+		return nil
+	}
+	fail := false
+	switch p.Kind {
+	case "kth":
+		fail = i == p.K
+	case "every-nth":
+		fail = i%p.N == p.K
+	case "all":
+		fail = true
+	case "random":
+		fail = p.Mask[i%len(p.Mask)]
+	case "from-kth-on":
+		fail = i >= p.K
+	case "first-k":
+		fail = i < p.K
+	}
+	if !fail {
+		return nil
+	}
+	return clientErrs[(p.Value+i*p.Rot)%len(clientErrs)]
 }
 
 type recClient struct {
@@ -47,6 +163,7 @@ type recClient struct {
 	gateExpired bool
 	armed       bool     // the gate blocks the first hand-over made after arm()
 	hc          *hookCtx // queue scenarios: the scenario's context (fallback hook, cancel state)
+	plan        *errPlan // which hand-overs are answered with an error (nil: none)
 }
 
 func newRecClient(mode byte, gated bool) *recClient {
@@ -97,6 +214,10 @@ func (c *recClient) SendFlush(p pack.Pack, flush bool, opts ...wnet.TcpClientOpt
 		h.Records = append([]byte{}, zp.Records...)
 	}
 	c.mu.Lock()
+	answer := c.plan.answer(len(c.hs))
+	if answer != nil {
+		h.Err = answer.Error()
+	}
 	c.hs = append(c.hs, h)
 	block := c.gate != nil && c.armed && !c.gateUsed && !firedHere
 	if block {
@@ -113,7 +234,7 @@ func (c *recClient) SendFlush(p pack.Pack, flush bool, opts ...wnet.TcpClientOpt
 			c.mu.Unlock()
 		}
 	}
-	return nil
+	return answer
 }
 
 func (c *recClient) expired() bool {
